@@ -1173,7 +1173,19 @@ static void h_c_parse(const char *cmd, cfg_t *cfg)
 	if (h_bad)
 		return;
 	if (!strcmp(cmd, "searchpath")) {
-		H_LIB(rc = cfg_add_searchpath(cfg, arg));
+		/* optional 4th argument: the section instance (by path) the directory is added to / looked up from */
+		cfg_t *where = cfg;
+
+		if (h_na > 3) {
+			char *sp = h_str(3);
+
+			H_LIB(where = sp ? cfg_getsec(cfg, sp) : cfg);
+			if (!where) {
+				h_std(cmd, "rc=nosec");
+				return;
+			}
+		}
+		H_LIB(rc = cfg_add_searchpath(where, arg));
 	} else if (!strcmp(cmd, "parse_buf")) {
 		h_in_parse++; H_LIB(rc = cfg_parse_buf(cfg, arg)); h_in_parse--;
 	} else if (!strcmp(cmd, "parse_file")) {
@@ -1760,7 +1772,13 @@ static void h_c_expand(const char *cmd, cfg_t *cfg)
 
 	if (h_bad)
 		return;
-	if (lookup)
+	if (lookup && h_na > 3) {	/* lookup C NAME SECPATH: through the list of that section instance */
+		char *sp = h_str(3);
+		cfg_t *where;
+
+		H_LIB(where = sp ? cfg_getsec(cfg, sp) : cfg);
+		H_LIB(res = where ? cfg_searchpath(where->path, name) : NULL);
+	} else if (lookup)
 		H_LIB(res = cfg_searchpath(cfg->path, name));
 	else
 		H_LIB(res = cfg_tilde_expand(name));
@@ -1805,7 +1823,7 @@ static const struct h_cmd {
 	{ "file", h_c_ambient, 0, 3, 4 }, { "passwd", h_c_ambient, 0, 3, 3 }, { "passwd_self", h_c_ambient, 0, 2, 2 },
 	{ "failat", h_c_ambient, 0, 2, 2 }, { "cberror", h_c_ambient, 0, 2, 2 }, { "stacklimit", h_c_ambient, 0, 2, 2 },
 	{ "init", h_c_init, 0, 4, 4 }, { "poison", h_c_poison, 0, 2, 2 }, { "free", h_c_free, 1, 2, 2 },
-	{ "searchpath", h_c_parse, 1, 3, 3 }, { "parse_buf", h_c_parse, 1, 3, 3 },
+	{ "searchpath", h_c_parse, 1, 3, 4 }, { "parse_buf", h_c_parse, 1, 3, 3 },
 	{ "parse_file", h_c_parse, 1, 3, 3 }, { "parse_fp", h_c_parse, 1, 3, 3 }, { "parse_fpfail", h_c_parse_fpfail, 1, 3, 3 }, { "errfunc", h_c_errfunc, 1, 3, 3 }, { "lex", h_c_lex, 0, 2, 2 },
 	{ "dump", h_c_dump, 1, 2, 2 }, { "getopt", h_c_get, 1, 3, 3 }, { "getsec", h_c_get, 1, 3, 3 },
 	{ "size", h_c_get, 1, 3, 3 }, { "title", h_c_get, 1, 3, 3 }, { "getv", h_c_getv, 1, 5, 5 }, { "getv0", h_c_getv, 1, 4, 4 }, { "gettsec", h_c_getv, 1, 4, 4 },
@@ -1817,7 +1835,7 @@ static const struct h_cmd {
 	{ "validate", h_c_hook, 1, 4, 5 }, { "validate2", h_c_hook, 1, 4, 5 }, { "printfunc", h_c_hook, 1, 4, 5 },
 	{ "filter", h_c_hook, 1, 3, H_MAXTOK }, { "unfilter", h_c_hook, 1, 3, 3 }, { "print", h_c_print, 1, 3, 3 }, { "printopt", h_c_print, 1, 3, 3 },
 	{ "roundtrip", h_c_roundtrip, 1, 3, 3 },
-	{ "tilde", h_c_expand, 0, 2, 2 }, { "lookup", h_c_expand, 1, 3, 3 },
+	{ "tilde", h_c_expand, 0, 2, 2 }, { "lookup", h_c_expand, 1, 3, 4 },
 	{ "failalloc", h_c_count, 0, 2, 2 }, { "live", h_c_count, 0, 1, 1 },
 };
 
